@@ -248,3 +248,12 @@ Theorem xb_field_set_to_ast sc ty l out :
   xs_schema_closed sc -> sch_get_type sc ty <> None ->
   xb_field_set sc ty l = (out, []) -> xt_sels out = l.
 Proof. intros Hcl Hty. apply (xb_sels_to_ast (Some sc) Hcl); exact Hty. Qed.
+
+(* a second round: if the printed AST builds without errors again, it prints to the same AST *)
+Theorem xb_second_round s ts a d d2 :
+  xs_closed s -> xb_document s ts a = (d, []) -> xb_document s ts (xt_doc d) = (d2, []) ->
+  xt_doc d2 = xt_doc d.
+Proof.
+  intros Hcl H1 H2. rewrite (xb_document_to_ast _ _ _ _ Hcl H2), (xb_document_to_ast _ _ _ _ Hcl H1).
+  apply xt_reorder_idempotent.
+Qed.
